@@ -153,6 +153,13 @@ impl ExtSession {
     }
 }
 
+/// contents of a previously used output buffer: deterministic junk derived from the session id
+pub fn dirty_fill(buf: &mut [u8], sid: &[u8; 32]) {
+    use rand::{RngCore, SeedableRng};
+    let mut r = rand_chacha::ChaCha20Rng::from_seed(*sid);
+    r.fill_bytes(buf);
+}
+
 pub fn ext_real_recv(state: &rvole::RVOLEReceiver, msg: &[u8]) -> Result<[Scalar; 2], String> {
     let m: Box<rvole::RVOLEOutput> = Box::new(bytemuck::pod_read_unaligned(msg));
     match catch_unwind(AssertUnwindSafe(|| state.process(&m))) {
@@ -173,6 +180,11 @@ pub fn ext_session(
     let (state, b) = rvole::RVOLEReceiver::new(sid, &sseed, &mut r1, &mut rng1);
     let round1 = bytemuck::bytes_of(&*r1).to_vec();
     let mut out = Box::new(rvole::RVOLEOutput::default());
+    // half of the sessions hand the sender an output buffer that was used before (the caller owns and may reuse it):
+    // `process` must overwrite every field, so the message cannot depend on what the buffer held
+    if sid[1] & 1 == 1 {
+        dirty_fill(bytemuck::bytes_of_mut(&mut *out), &sid);
+    }
     let mut rng2 = TapeRng { tape: eta_tape.clone(), pos: 0 };
     let send = match catch_unwind(AssertUnwindSafe(|| rvole::RVOLESender::process(&sid, &rseed, &a, &r1, &mut out, &mut rng2))) {
         Ok(Ok(c)) => Ok((bytemuck::bytes_of(&*out).to_vec(), c)),
@@ -394,6 +406,9 @@ pub fn ot_session(seed: u64, name: &str, sid: [u8; 32], a: [Scalar; 2]) -> OtSes
     let (state, _ra, _rb, b) = rvot::RVOLEReceiver::new(sid, &mut m1, &mut r);
     let msg1 = bytemuck::bytes_of(&*m1).to_vec();
     let mut out = Box::new(rvot::RVOLEMsg2::default());
+    if sid[1] & 1 == 1 {
+        dirty_fill(bytemuck::bytes_of_mut(&mut *out), &sid);
+    }
     let mut r2 = rng(seed, &send_stream);
     let send = match catch_unwind(AssertUnwindSafe(|| rvot::RVOLESender::process(&sid, &a, &m1, &mut out, &mut r2))) {
         Ok(Ok(c)) => Ok((bytemuck::bytes_of(&*out).to_vec(), c)),
